@@ -28,8 +28,8 @@ Definition is_some {A} (o : option A) := negb (is_none o).
 Fixpoint upd {A} (l : list A) (n : nat) (v : A) : list A :=
   match l, n with [], _ => [] | _ :: l', O => v :: l' | a :: l', S n' => a :: upd l' n' v end.
 Definition updZ {A} (l : list A) (k : Z) (v : A) : list A := if k <? 0 then l else upd l (Z.to_nat k) v.
-Definition getZ (x : list Z) (k : Z) : Z := nth (Z.to_nat k) x 0.
 Definition getD {A} (d : A) (x : list A) (k : Z) : A := nth (Z.to_nat k) x d.
+Definition getZ (x : list Z) (k : Z) : Z := getD 0 x k.
 Definition firstnZ {A} (k : Z) (l : list A) : list A := firstn (Z.to_nat k) l.
 Definition lenZ {A} (l : list A) : Z := Z.of_nat (length l).
 Definition swapZ {A} (d : A) (l : list A) (a b : Z) : list A := updZ (updZ l a (getD d l b)) b (getD d l a).
